@@ -58,6 +58,12 @@ func c15Case(scopes map[string]string) *Case {
 	emptyScript := &Script{Name: ename, Scope: scopes["script"]} // no statements at all
 	typeInlineEmpty := atoms.New(ClsIdent, "mstype", "mstypes")
 	text := &TextTop{Name: tname, Scope: scopes["text"], Lits: []*StrLit{{Parts: []Tok{L("abc")}}}}
+	// a text statement with exactly the content of the script's inline text,
+	// and a movement statement with exactly the steps of its moves()
+	t2name := atoms.New(ClsUserName, "text", "names")
+	text2 := &TextTop{Name: t2name, Scope: scopes["text"], Lits: []*StrLit{{Parts: []Tok{L("Hello$")}}}}
+	m2name := atoms.New(ClsUserName, "movement", "names")
+	mov2 := &MovementTop{Name: m2name, Scope: scopes["movement"], Steps: []*Step{{Name: L("walk_up")}}}
 	mov := &MovementTop{Name: mname, Scope: scopes["movement"], Steps: []*Step{{Name: L("walk_down")}}}
 	mart := &MartTop{Name: martname, Scope: scopes["mart"], Items: []*Step{{Name: L("ITEM_X")}}}
 	ms := &MapScriptsTop{Name: msname, Scope: scopes["mapscripts"], Entries: []*MapEntry{
@@ -70,7 +76,7 @@ func c15Case(scopes map[string]string) *Case {
 		}},
 		{Type: typeInlineEmpty, Kind: "inline", Body: nil},
 	}}
-	prog := &Program{Atoms: atoms, Tops: []interface{}{script, text, mov, mart, ms, emptyScript}}
+	prog := &Program{Atoms: atoms, Tops: []interface{}{script, text, mov, mart, ms, emptyScript, text2, mov2}}
 	isGlobal := func(kind, dflt string) bool {
 		s := scopes[kind]
 		if s == "" {
@@ -85,6 +91,8 @@ func c15Case(scopes map[string]string) *Case {
 			{"script with an empty body", ename.Val, isGlobal("script", "global")},
 			{"text", tname.Val, isGlobal("text", "global")},
 			{"movement", mname.Val, isGlobal("movement", "local")},
+			{"text with the content of an inline text", t2name.Val, isGlobal("text", "global")},
+			{"movement with the steps of a moves()", m2name.Val, isGlobal("movement", "local")},
 			{"mart", martname.Val, isGlobal("mart", "local")},
 			{"mapscripts", msname.Val, isGlobal("mapscripts", "global")},
 			{"label without modifier", lblNone.Val, false},
